@@ -56,12 +56,14 @@ func c31GenHistory(r *mon.Run, idx int) (keys []revcache.Key, ops []c31Op) {
 		if k > 0 && rng.IntN(2) == 0 { // same interface number in another AS
 			key = revcache.Key{IA: ia + 1, IfID: keys[0].IfID}
 		}
-		dup := false
-		for _, o := range keys {
-			dup = dup || o == key
-		}
-		if dup {
-			key.IfID += 10
+		for dup := true; dup; {
+			dup = false
+			for _, o := range keys {
+				dup = dup || o == key
+			}
+			if dup {
+				key.IfID += 10
+			}
 		}
 		keys = append(keys, key)
 	}
